@@ -267,6 +267,9 @@ func payload(m dsl.Matcher) {
 
 	m.MatchComment("LONG: (?P<body>.*)").Report("long").Suggest("SHORT: $body!")
 
+	m.MatchComment("gen (?P<what>\\w+) (?P<tool>\\S+)").Where(m["tool"].Text == "nope").Report("first $what $tool")
+	m.MatchComment("gen \\w+ (?P<what>\\S+)").Report("second $what").At(m["what"]).Suggest("$what@v1")
+
 	m.Match(` + "`" + `ml1(
 		$x,
 	)` + "`" + `, ` + "`" + `ml2($x,
@@ -303,6 +306,7 @@ func t(s S, arr []S) {
 	// TODO(alice) something
 	// FIXME: broken
 	// NOTE(abc): rest of it
+	// gen code example.com/tool
 	// LONG: a comment body that is considerably longer than the default sixty byte truncation limit of messages
 	ml1(7)
 	ml2(8, 9)
@@ -355,6 +359,7 @@ func c03E2E(c *Ctx) error {
 		{"self()\n}", "self", lineOf(`"self($*args)"`), "self()", "self()"},
 		{"NOTE-at", "note abc", lineOf(`m.MatchComment("NOTE`), "<abc>", "abc"},
 		{"LONG: a comment body that is considerably longer than the default sixty byte truncation limit of messages", "long", lineOf(`m.MatchComment("LONG`), "SHORT: a comment body that is considerably longer than the default sixty byte truncation limit of messages!", "LONG: a comment body that is considerably longer than the default sixty byte truncation limit of messages"},
+		{"example.com/tool", "second example.com/tool", lineOf(`m.MatchComment("gen \\w+`), "example.com/tool@v1", "example.com/tool"},
 		{"ml1(7)", "ml 7", lineOf("`ml1("), "", "ml1(7)"},
 		{"ml2(8, 9)", "ml 8", lineOf("`ml2($x,"), "", "ml2(8, 9)"},
 	}
